@@ -358,6 +358,12 @@ def judge_member(gt, m, res, text, part):
         return False
     bump("members_loaded")
     bump("kind:" + m["kind"])
+    words = m["desc"].split()
+    if m["kind"] == "npd":
+        words = ["npd", "npd-numbers:" + words[-1]]
+    for w in words:
+        if not w.startswith("opt:"):
+            bump("spelling:" + w)
     fn = "vnadata_fload" if m["fload"] else "vnadata_load"
     if el["ret"] != 0:
         msg = el["cb"][0][1] if el.get("cb") else ""
@@ -495,6 +501,10 @@ def main():
                 for _ in range(nchunks)]
     for part in R.pmap(run_chunk, payloads):
         chk.merge(part)
+    spell = {}
+    for k in list(chk.counters):
+        if k.startswith("spelling:"):
+            spell[k[9:]] = chk.counters.pop(k)
     chk.finish(
         rule="one evaluation = one equivalence class: a ground truth (S/Z/Y/H/G "
              "1..8 ports for Touchstone; any type incl. Zin, complex and "
@@ -517,7 +527,8 @@ def main():
             "'#:z0' (the loader diagnoses the other order explicitly); NPD "
             "keywords are kept in lower case",
             "noise data are not part of vnadata_t: only their being skipped "
-            "is checked"])
+            "is checked"],
+        extra=dict(members_by_spelling_feature=spell))
 
 
 if __name__ == "__main__":
